@@ -218,6 +218,18 @@ func init() {
 		return nil, false
 	})
 	reg("NoPanic", func(c *icall) ([]*State, bool) { c.s.NoPanic = true; return nil, false })
+	reg("NoModel", func(c *icall) ([]*State, bool) {
+		// the named Go-source models are switched off for this run: the real code is executed instead
+		nm := map[string]bool{}
+		for k := range c.s.NoModel {
+			nm[k] = true
+		}
+		for _, a := range sliceElems(c.s, c.args[0]) {
+			nm[litArg(a, "model name")] = true
+		}
+		c.s.NoModel = nm
+		return nil, false
+	})
 	reg("Observe", func(c *icall) ([]*State, bool) {
 		iv := c.args[1].(IfaceV)
 		// a symbolic boolean that the path condition forces is observed as its value
